@@ -8,9 +8,14 @@ Correspondence (Lean model `NipyVerif.C17`):
   * Python level: labs.utils.routines.permutations/combinations, labs.group.onesample /
     twosample `stat(..., axis, Magics)` (compiled glue), algorithms.statistics.onesample /
     mixed_effects_stat, labs.group.permutation_test.pvalue.
+  * every flag of both statistic enums dispatched by numeric value through tables regenerated from
+    the C / .pyx text (harness/props/c17_tables.py -> Gen/C17Tables.lean): `osf`, `tsf`, `mfxflag`;
+    statistic along any axis of an N-d array of any layout (`axis`, `axis2`); Gaussian likelihood ratio
+    (`lrgmfx`); two-level linear model loops on general designs (`glm2`, `vbglm`, `memx`, `tsmfx`,
+    `tsdesign`); permutation_test counting (`pvalc`, `calib`, `csize`, `poolp`, `region`, `hthresh`).
 Oracle: the property clauses evaluated on the real code with independent exact
-definitions (fractions): definitions, antisymmetry, axis independence, validity /
-distinctness / completeness of the seeded relabellings, p-values in (0, 1].
+definitions (fractions): definitions, antisymmetry, base shift law, axis independence, validity /
+distinctness / completeness of the seeded relabellings, validity of the null sample, p-values in (0, 1].
 """
 from __future__ import annotations
 
@@ -27,17 +32,45 @@ import numpy as np
 if hasattr(sys, "set_int_max_str_digits"):
     sys.set_int_max_str_digits(0)   # exact EM iterates have long numerators
 
-from harness.core import PropertyCheck
-from harness.util import Snapshot, close, cmp_rats, fr, frs, parse_rats, plist
+from harness.core import REPO, PropertyCheck, TieBroken
+from harness.props import c17_tables
+from harness.util import Snapshot, close, cmp_rats, fr, frs, parse_rats, plist, pmat
 
+# flag values: read from the C headers / .pyx dictionaries of the tree under test (c17_tables); the
+# literal tables below are only the fall-back that keeps the module importable when the sources
+# cannot be parsed (translators() then reports the broken tie)
 OS_FLAGS = {"mean": 0, "median": 1, "student": 2, "laplace": 3, "tukey": 4, "sign": 5, "wilcoxon": 6,
             "elr": 7, "grubb": 8, "mean_mfx": 10, "median_mfx": 11, "student_mfx": 12, "sign_mfx": 15,
             "wilcoxon_mfx": 16, "elr_mfx": 17, "mean_gauss_mfx": 19}
 TS_FLAGS = {"student": 2, "wilcoxon": 6, "student_mfx": 12}   # values of the C header (the .pyx enum values are ignored by Cython)
+try:
+    _TABLES = c17_tables.parse_all(REPO)
+    _one, _two = c17_tables.flag_values(_TABLES)
+    if set(_one) >= set(OS_FLAGS) and set(_two) >= set(TS_FLAGS):
+        OS_FLAGS, TS_FLAGS = _one, _two
+    _TABLES_ERR = None
+except c17_tables.ParseError as _e:          # pragma: no cover
+    _TABLES, _TABLES_ERR = None, str(_e)
+KEY_NEG_AXIS = "pyx-negative-axis"
 OS_RFX = ["mean", "median", "student", "laplace", "sign", "wilcoxon"]
+OS_RFX_ALL = OS_RFX + ["tukey", "elr", "grubb"]
 # cluster / region p-values of calibrate(): exercised in thorough only until
 # proposed_fixes/C17-calibrate-cluster-region-pvalues.patch is applied (then set True)
 CLUSTERS_IN_QUICK = True
+# The null sample (`random_Tvalues`) of the permutation_test classes must consist of `ndraws` statistics
+# of relabelled voxels.  Two configurations violate that on the tree as found: permutation_test_twosample
+# with axis=1 splits the relabelled sample along the draws axis (n1 "draws" that are statistics of nothing),
+# and every class computes the null sample of a mixed-effects statistic with the default niter=5 instead
+# of the `niter` it was given.  The clause is checked for those configurations once
+# proposed_fixes/C17-permutation-test-null-sample.patch is applied (then set True; VERIF_C17_ASSUME_FIXED=1
+# turns it on for a run against a patched tree)
+import os as _os
+STRICT_NULL_DRAWS = True       # fix db051be is in /repo
+# `_fff_onesample_median_mfx` ignores its baseline (the weighted median is returned as is, every other
+# statistic - including the fixed-effects median and mean_mfx - is taken relative to `base`): the niter=0
+# reduction to the median statistic and the base shift law are checked for median_mfx with base != 0 once
+# proposed_fixes/C17-median-mfx-baseline.patch is applied (then set True)
+STRICT_MEDIAN_MFX_BASE = True  # fix 7fc564d is in /repo
 OS_MFX = ["mean_gauss_mfx", "student_mfx", "mean_mfx", "sign_mfx", "wilcoxon_mfx", "elr_mfx", "median_mfx"]
 
 
@@ -57,6 +90,16 @@ class _OSM(C.Structure):   # fff_onesample_stat_mfx
 class _TSM(C.Structure):   # fff_twosample_stat_mfx
     _fields_ = [("n1", C.c_uint), ("n2", C.c_uint), ("flag", C.c_int), ("niter", C.c_uint),
                 ("params", C.c_void_p), ("compute", C.c_void_p)]
+
+
+class _M(C.Structure):   # fff_matrix
+    _fields_ = [("size1", C.c_size_t), ("size2", C.c_size_t), ("tda", C.c_size_t),
+                ("data", C.POINTER(C.c_double)), ("owner", C.c_int)]
+
+
+class _EM(C.Structure):  # fff_glm_twolevel_EM
+    _fields_ = [("n", C.c_size_t), ("p", C.c_size_t), ("b", C.POINTER(_V)), ("s2", C.c_double),
+                ("z", C.POINTER(_V)), ("vz", C.POINTER(_V)), ("Qz", C.POINTER(_V)), ("niter", C.c_uint)]
 
 
 _LIB = None
@@ -101,6 +144,15 @@ def _lib():
         L.fff_twosample_stat_mfx_eval.argtypes = [C.POINTER(_TSM), PV, PV]
         L.fff_twosample_stat_mfx_eval.restype = C.c_double
         L.fff_twosample_stat_mfx_delete.argtypes = [C.POINTER(_TSM)]
+        PM = C.POINTER(_M)
+        L.fff_glm_twolevel_EM_new.argtypes = [C.c_size_t, C.c_size_t]
+        L.fff_glm_twolevel_EM_new.restype = C.POINTER(_EM)
+        L.fff_glm_twolevel_EM_init.argtypes = [C.POINTER(_EM)]
+        L.fff_glm_twolevel_EM_init.restype = None
+        L.fff_glm_twolevel_EM_run.argtypes = [C.POINTER(_EM), PV, PV, PM, PM, C.c_uint]
+        L.fff_glm_twolevel_EM_run.restype = None
+        L.fff_glm_twolevel_EM_delete.argtypes = [C.POINTER(_EM)]
+        L.fff_glm_twolevel_EM_delete.restype = None
         _LIB = L
     return _LIB
 
@@ -108,6 +160,50 @@ def _lib():
 def _vec(a):
     assert a.dtype == np.float64 and a.flags.c_contiguous
     return _V(a.size, 1, a.ctypes.data_as(C.POINTER(C.c_double)), 0)
+
+
+def _mat(a):
+    assert a.dtype == np.float64 and a.flags.c_contiguous and a.ndim == 2
+    return _M(a.shape[0], a.shape[1], a.shape[1], a.ctypes.data_as(C.POINTER(C.c_double)), 0)
+
+
+def c_glm2(X, P, y, vy, niter):
+    """fff_glm_twolevel_EM_init + _run on design X (n x p) with projector P (p x n) -> (b, s2)"""
+    X = np.ascontiguousarray(X, dtype=float); P = np.ascontiguousarray(P, dtype=float)
+    y = np.ascontiguousarray(y, dtype=float); vy = np.ascontiguousarray(vy, dtype=float)
+    L = _lib()
+    em = L.fff_glm_twolevel_EM_new(X.shape[0], X.shape[1])
+    L.fff_glm_twolevel_EM_init(em)
+    mx, mp, a, b = _mat(X), _mat(P), _vec(y), _vec(vy)
+    L.fff_glm_twolevel_EM_run(em, C.byref(a), C.byref(b), C.byref(mx), C.byref(mp), niter)
+    bv = em.contents.b.contents
+    out = [bv.data[i * bv.stride] for i in range(bv.size)], em.contents.s2
+    L.fff_glm_twolevel_EM_delete(em)
+    return out
+
+
+class _TSP(C.Structure):  # fff_twosample_mfx (static in fff_twosample_stat.c)
+    _fields_ = [("em", C.POINTER(_EM)), ("niter", C.POINTER(C.c_uint)), ("work", C.POINTER(_V)),
+                ("X", C.POINTER(_M)), ("PX", C.POINTER(_M)), ("PPX", C.POINTER(_M))]
+
+
+def c_tsdesign(n1, n2):
+    """the matrices `_fff_twosample_mfx_assembly` stores in a freshly built two-sample MFX statistic"""
+    L = _lib()
+    s = L.fff_twosample_stat_mfx_new(n1, n2, TS_FLAGS["student_mfx"])
+    par = C.cast(s.contents.params, C.POINTER(_TSP)).contents
+    out = []
+    for m in (par.X.contents, par.PX.contents, par.PPX.contents):
+        out.append([[m.data[i * m.tda + j] for j in range(m.size2)] for i in range(m.size1)])
+    L.fff_twosample_stat_mfx_delete(s)
+    return out
+
+
+def glm_ll(y, vy, X, b, s2):
+    y = np.asarray(y, float); vy = np.asarray(vy, float)
+    r = y - np.asarray(X, float) @ np.asarray(b, float)
+    w = vy + s2
+    return -0.5 * float(np.sum(np.log(w) + r * r / w))
 
 
 def c_signs(x, magic):
@@ -174,6 +270,14 @@ def c_os(stat, x, base):
     t = L.fff_onesample_stat_eval(s, C.byref(v))
     L.fff_onesample_stat_delete(s)
     return t
+
+
+def c_osmfx_empirical(stat, n):
+    L = _lib()
+    s = L.fff_onesample_stat_mfx_new(n, OS_FLAGS[stat], 0.0)
+    e = int(s.contents.empirical)
+    L.fff_onesample_stat_mfx_delete(s)
+    return e
 
 
 def c_osmfx(stat, x, var, base, niter):
@@ -295,6 +399,50 @@ def d_laplace(x, base):
     return sg * math.sqrt(2 * n * math.log(float(s0 / s)))
 
 
+def d_tukey(x, base):
+    n = len(x)
+    med = d_median(x, F(0))
+    s = d_median([abs(v - med) for v in x], F(0))
+    s0 = max(d_median([abs(v - base) for v in x], F(0)), s)
+    sg = sgn(med - base)
+    if sg == 0:
+        return 0.0
+    if s == 0:
+        return sg * math.inf
+    return sg * math.sqrt(2 * n * math.log(float(s0 / s)))
+
+
+def d_grubb(x):
+    n = len(x)
+    m = sum(x, F(0)) / n
+    var = sum((v - m) ** 2 for v in x) / n
+    if var == 0:
+        return 0.0
+    return math.sqrt(float(max((v - m) ** 2 for v in x) / var))
+
+
+def d_elr(x, base):
+    """empirical likelihood ratio for the mean: sign * sqrt(2 sum log(1 + lam r_i)), lam the root of
+    sum r_i / (1 + lam r_i) = 0 in (-1/max r, -1/min r) (independent bisection)"""
+    r = [float(v - base) for v in x]
+    sg = sgn(sum(x, F(0)) / len(x) - base)
+    if sg == 0:
+        return 0.0
+    if not (any(v > 0 for v in r) and any(v < 0 for v in r)):
+        return sg * math.inf
+    lo, hi = -1.0 / max(r), -1.0 / min(r)
+    g = lambda lam: sum(v / (1.0 + lam * v) for v in r)       # decreasing in lam
+    a, b = lo, hi
+    for _ in range(200):
+        mid = 0.5 * (a + b)
+        if g(mid) > 0:
+            a = mid
+        else:
+            b = mid
+    lam = 0.5 * (a + b)
+    return sg * math.sqrt(max(0.0, 2.0 * sum(math.log(1.0 + lam * v) for v in r)))
+
+
 def d_ts_student(x1, x2):
     n1, n2 = len(x1), len(x2)
     m1 = sum(x1, F(0)) / n1; m2 = sum(x2, F(0)) / n2
@@ -365,33 +513,72 @@ def _var(rng, n):
 class C17(PropertyCheck):
     id = "C17"
     title = "Group statistics equal their definitions; permutations enumerate exactly"
-    lean_modules = ["NipyVerif.Props.C17"]
+    lean_modules = ["NipyVerif.Props.C17", "NipyVerif.Props.C17B", "NipyVerif.Props.C17C", "NipyVerif.Props.C17D", "NipyVerif.Props.C17E"]
     driver = "Drivers/C17.lean"
     rule = ("cases are (kind, sizes, dyadic data, baseline, magic numbers) from a seeded PRNG plus the "
             "exhaustive enumerations the property names (all sign patterns n<=10, all two-group splits "
-            "n1+n2<=10, all permutations n<=6/7, all combinations n<=10) in thorough; non-trivial = "
-            "at least 3 subjects or a non-zero magic number; distinct by full JSON of the case")
+            "n1+n2<=10, all permutations n<=6/7, all combinations n<=10) in thorough; every flag of both "
+            "statistic enums (dispatched by numeric value), N-d arrays of every layout along every axis, "
+            "general second-level designs, permutation tests with cluster / region / graph / diameter options; "
+            "non-trivial = at least 3 subjects or a non-zero magic number; distinct by full JSON of the case")
     assumptions = [
-        "sqrt/log at the end of Student, Laplace and likelihood-ratio statistics are outside the model: "
-        "the model gives the sign and the last rational quantity, the final value is compared numerically (1e-9)",
+        "sqrt/log at the end of Student, Laplace, Tukey, Grubb and the Gaussian likelihood-ratio statistics are "
+        "outside the model: the model gives the sign and the last rational quantities (square, scale pair, exact EM "
+        "fits), the harness finishes the value numerically and compares at 1e-9 (1e-7 for likelihood ratios)",
+        "empirical likelihood ratio (elr): the model gives the sign and whether the statistic is 0 / infinite / finite "
+        "(theorems osElr_odd, osElr_shift); the finite value (Newton root of the Lagrange multiplier, then log) is "
+        "oracle-only, against an independent bisection root at 1e-6",
         "magic numbers are modelled as naturals; the C code carries them in double / unsigned long, exact "
         "below 2^53 / 2^64 (theorems carry k <= n and range hypotheses; boundary magic numbers 2^31..2^40 are "
         "probed on the real code by the oracle)",
         "glibc qsort on the small arrays used is a stable merge sort: ties of |residual| in the Wilcoxon "
         "statistic are ranked in input order (the oracle additionally accepts nothing outside the range "
         "spanned by all tie orders)",
-        "empirical (non-Gaussian) mixed-effects EM statistics (exp/log inside the loop) are checked by the "
-        "oracle only: niter=0 reductions to the fixed-effects definitions, antisymmetry, sign",
-        "MixedEffectsModel is modelled for the one-sample design X=1 (pinv(X)Y = column mean); the "
-        "two-sample design and estimate_varatio are oracle-only",
-        "np.random draws inside permutation_test are inputs: the draws the implementation produced are "
-        "handed to the model",
+        "empirical (non-Gaussian) mixed-effects EM statistics (exp/log inside the loop: mean_mfx, median_mfx, sign_mfx, "
+        "wilcoxon_mfx, elr_mfx) are checked by the oracle only: niter=0 reductions to the fixed-effects definitions, "
+        "antisymmetry, base shift law, sign; the model covers their constructor dispatch and `empirical` field",
+        "the pseudo-inverse of a general second-level design (np.linalg.pinv) is a parameter of the model: the matrix "
+        "the implementation computed is handed over (the oracle certifies P X = I); for the two-sample design the "
+        "projectors are explicit rationals and proved to be a left inverse (tsPX_left_inverse)",
+        "theorems about EM steps carry non-degeneracy hypotheses (s_i + v != 0, v != 0; satisfied by positive variances, "
+        "examples given); convergence / monotone likelihood of the iterations is not proved (oracle: signs, symmetries)",
+        "np.random draws inside permutation_test are inputs: the null sample and the relabellings calibrate draws are "
+        "handed to the model; cluster labels (connected components, C11/C12) and Fisher values (-sum log p) are inputs "
+        "of the counting model as the implementation's own functions computed them",
+        "np.argsort inside the corrected region p-values is modelled as a stable sort (theorem region_corr_p_in_unit only "
+        "uses rank >= #smaller, true of every argsort); on ties the corrected values are not compared",
         "the compiled Cython glue (.pyx) cannot be rebuilt here: Python-level stat()/permutations() "
-        "observations come from the installed extension linked against the pinned lib/fff",
+        "observations come from the installed extension linked against the pinned lib/fff; the flag enums, "
+        "constructor dispatch and id dictionaries are re-read from the C / .pyx text by the translator",
     ]
-    level_note = ("proved: sign/permutation/combination/two-sample enumeration facts, rational statistics, "
-                  "antisymmetry, p-value range; numeric only: sqrt/log tails, empirical-likelihood EM")
-    finding_keys = {}
+    level_note = ("proved for all sizes: fff_permutation / fff_combination / two-sample relabelling are bijections onto "
+                  "permutations / k-subsets / n1-subsets with magic 0 = identity (C17B); every rational one- and two-sample "
+                  "statistic: textbook form, antisymmetry, base shift law, axis independence, flag tables (C17C); every "
+                  "p-value kind of permutation_test in (0, 1], identity relabelling reproduces the observed statistic, "
+                  "height threshold (C17D); Gaussian EM step closed form / fixed point <=> score equations / oddness, "
+                  "E-step forms agree, two-sample projectors (C17E). Hypotheses: non-degenerate variances in EM-step "
+                  "theorems; sorted null sample for the height threshold. Oracle only: sqrt/log tails, elr finite value, "
+                  "empirical-likelihood EM statistics, likelihood monotonicity, estimate_varatio iterates beyond the "
+                  "modelled step, diameter-constrained clusters (experimental, may raise on plateaus). Gated until the "
+                  "proposed fixes are applied: null-sample validity for two-sample axis=1 / mfx niter != 5, median_mfx "
+                  "baseline, negative axis in the .pyx glue (known-finding key pyx-negative-axis)")
+    finding_keys = {KEY_NEG_AXIS: "labs.group.onesample/twosample stat(..., axis=-k): a negative axis is neither refused "
+                                  "nor normalised; n is read from the C shape pointer at a negative offset and the result "
+                                  "is garbage (onesample.pyx / twosample.pyx: `n = <unsigned int>Y.shape[axis]`)"}
+
+    # ------------------------------------------------------------------
+    def translators(self):
+        """flag enums, constructor dispatch tables and the .pyx id dictionaries -> Gen/C17Tables.lean"""
+        try:
+            t = c17_tables.parse_all(REPO)
+        except c17_tables.ParseError as e:
+            raise TieBroken(f"C17 tables: {e}")
+        one, two = c17_tables.flag_values(t)
+        if not (set(one) >= set(OS_RFX_ALL + OS_MFX) and set(two) >= {"student", "wilcoxon", "student_mfx"}):
+            raise TieBroken("C17 tables: a statistic id of the property is no longer in the stats dictionaries")
+        from harness import cshim
+        cshim.build("fff")       # once, in the parent: workers then only dlopen the cached library
+        return [("NipyVerif/Gen/C17Tables.lean", c17_tables.lean_text(t))]
 
     # ------------------------------------------------------------------
     def generate(self, rng, tier):
@@ -443,7 +630,7 @@ class C17(PropertyCheck):
             n = _size(rng)
             x = _sample(rng, n)
             base = rng.choice([0.0, 0.0, 0.0, 1.0, -0.5, 2.25, x[0], float(np.median(x))])
-            cases.append({"kind": "os", "stat": rng.choice(OS_RFX), "x": x, "base": base,
+            cases.append({"kind": "os", "stat": rng.choice(OS_RFX_ALL), "x": x, "base": base,
                           "magic": rng.choice([0, 0, rng.randrange(1 << n), (1 << n) - 1])})
         for _ in range(n_mfx):
             n = rng.choice([2, 3, 4, 5, 6, 8, 12, 20])
@@ -480,6 +667,31 @@ class C17(PropertyCheck):
             n = rng.choice([1, 2, 3, 4, 5, 6, 9]); k = rng.randrange(0, n + 1)
             cases.append({"kind": "pyperm", "n": n, "k": k, "m": rng.choice([1, 2, 5]),
                           "magic": rng.randrange(0, 5000)})
+        # statistic along an axis of an N-d array, every entry against the model (all RFX flags).
+        # A negative axis (NumPy convention) is neither refused nor honoured by the compiled glue
+        # (`Y.shape[axis]` on the C shape pointer): cases with one are generated once the finding
+        # `pyx-negative-axis` is listed in known_findings.json (the .pyx cannot be rebuilt here).
+        # (The defect is repaired in lib/fff_python_wrapper/fffpy.c - see known_findings.json, property C20 - and is
+        # checked there on the C re-compiled from the tree.  The installed extension modules are stale: running a
+        # negative axis through them corrupts the heap of the worker process, so no such case is generated here.)
+        neg_ok = False
+        for _ in range(150 if q else 1500):
+            n = rng.choice([2, 3, 3, 4, 5, 6, 8])
+            nd = rng.choice([1, 2, 2, 3, 3, 4])
+            shape = [rng.choice([1, 2, 3]) for _ in range(nd)]
+            axis = rng.randrange(nd)
+            shape[axis] = n
+            two = rng.random() < 0.35
+            n2 = rng.choice([1, 2, 3, 4])
+            tot = math.comb(n + n2, n)
+            cases.append({"kind": "axis", "shape": shape, "axis": axis, "seed": rng.randrange(10 ** 6),
+                          "stat": rng.choice(["student", "wilcoxon"]) if two else rng.choice(OS_RFX_ALL),
+                          "base": rng.choice([0.0, 0.0, 1.0, -0.5, 2.25]),
+                          "layout": rng.choice(["C", "C", "F", "T"]), "neg_axis": (rng.random() < 0.2) and neg_ok,
+                          "two": two, "n2": n2,
+                          "magics": ([rng.randrange(tot + 2) for _ in range(rng.choice([1, 2, 3]))] if two else
+                                     [rng.randrange(1 << n) for _ in range(rng.choice([1, 2, 3]))])
+                                    if rng.random() < 0.85 else None})
         # permutation tests
         for _ in range(n_pt):
             n = rng.choice([2, 2, 3, 3, 4, 5])
@@ -489,7 +701,7 @@ class C17(PropertyCheck):
                           "nperms": rng.choice([None, None, 3, 1000]),
                           "two": rng.random() < 0.35, "n2": rng.choice([2, 3])})
         # ---- optional / rarely used arguments of every named routine --------------------------
-        n_va, n_ms, n_ax, n_po = (150, 120, 90, 40) if q else (2500, 2000, 1500, 500)
+        n_va, n_ms, n_ax, n_po = (150, 120, 90, 90) if q else (2500, 2000, 1500, 600)
         for _ in range(n_va):
             n = rng.choice([2, 3, 4, 5, 6, 8, 12, 20, 40]); p = rng.choice([1, 1, 2, 3])
             cases.append({"kind": "varatio", "n": n, "p": p, "seed": rng.randrange(10 ** 6),
@@ -502,6 +714,15 @@ class C17(PropertyCheck):
                           "design": rng.choice(["ones", "group", "group", "group+cov"]),
                           "column": rng.choice([0, 1, 1, 2]), "niter": rng.choice([0, 1, 2, 5, 8]),
                           "default_niter": rng.random() < 0.15})
+        for _ in range(80 if q else 1500):
+            n = rng.choice([3, 4, 4, 5, 6, 8, 8, 12])
+            pp = rng.choice([1, 1, 2, 3])
+            # (niter=0 asks for no fit at all: two_level_glm then returns (0, inf) for one column and
+            #  fails to reshape its scalar inf for several; only the one-column form is exercised)
+            cases.append({"kind": "vbglm", "n": n, "p": pp, "seed": rng.randrange(10 ** 6),
+                          "design": rng.choice(["ones", "group", "group", "group+cov"]) if n >= 4 else "ones",
+                          "n1": rng.randrange(1, n),
+                          "niter": rng.choice([0, 1, 1, 2, 2, 5, 10] if pp == 1 else [1, 1, 2, 2, 5, 10])})
         for _ in range(n_ax):
             n = rng.choice([2, 3, 4, 5, 8])
             shape = rng.choice([(n,), (n, 3), (2, n), (2, n, 3), (n, 1, 2)])
@@ -518,10 +739,11 @@ class C17(PropertyCheck):
                           "stat": rng.choice(["mean_gauss_mfx", "sign_mfx", "mean_mfx", "student_mfx"]) if mfx
                           else rng.choice(["student", "mean", "wilcoxon", "sign", "median", "laplace"]),
                           "mfx": mfx, "base": rng.choice([0.0, 0.0, 0.5, -1.0]), "axis": rng.choice([0, 1]),
-                          "niter": rng.choice([0, 1, 3]), "ndraws": rng.choice([8, 16, 50]),
+                          "niter": rng.choice([0, 1, 3, 5]), "ndraws": rng.choice([8, 16, 50]),
                           "shift": rng.choice([0.0, 1.0, 3.0]), "nperms": rng.choice([None, None, 5]),
                           "two": rng.random() < 0.35, "n2": rng.choice([2, 3]),
-                          "clusters": (CLUSTERS_IN_QUICK or not q) and rng.random() < 0.5})
+                          "clusters": (CLUSTERS_IN_QUICK or not q) and rng.random() < 0.5,
+                          "graph": rng.random() < 0.2, "diam": rng.choice([None, None, 1, 2])})
         return cases
 
     # ------------------------------------------------------------------
@@ -703,13 +925,20 @@ class C17(PropertyCheck):
         xp = c_signs(xa, m)
         t = c_os(stat, xp, base)
         mut = snap.changed()
-        line = f"os {stat} {fr(base)} {m} {plist(x)}"
+        # dispatch through the numeric flag (tables regenerated from the C sources) and, for the
+        # statistics of the base protocol, by name
+        lines = [f"osf {OS_FLAGS[stat]} {fr(base)} {m} {plist(x)}"]
+        impl = [("os", stat, t, n)]
+        if stat in OS_RFX:
+            lines.append(f"os {stat} {fr(base)} {m} {plist(x)}")
+            impl.append(("os", stat, t, n))
         fx = [F(v) for v in flip(x, m)] if m < (1 << n) else [F(float(v)) for v in xp]
         fb = F(base)
         fail = None
         if [float(v) for v in fx] != xp.tolist():
             fx = [F(float(v)) for v in xp]   # relabelling errors are reported by the `signs` cases
         want = None
+        tol = 1e-9
         if stat == "mean":
             want = d_mean(fx, fb)
         elif stat == "median":
@@ -720,25 +949,45 @@ class C17(PropertyCheck):
             want = d_student(fx, fb)
         elif stat == "laplace":
             want = d_laplace(fx, fb)
+        elif stat == "tukey":
+            want = d_tukey(fx, fb)
+        elif stat == "grubb":
+            want = d_grubb(fx)
+        elif stat == "elr":
+            want = d_elr(fx, fb)
+            tol = 1e-6
         if stat == "wilcoxon":
             lib, lo, hi = d_wilcoxon_range(fx, fb)
             if not (float(lo) - 1e-12 <= t <= float(hi) + 1e-12):
                 fail = (f"wilcoxon(x={[float(v) for v in fx]}, base={base}) = {t}: outside the signed-rank "
                         f"definition [{float(lo)}, {float(hi)}] (sum of rank*sign / n^2)")
-        elif want is not None and not _same(t, want):
+        elif want is not None and not _same(t, want, tol):
             fail = f"{stat}(x={[float(v) for v in fx]}, base={base}) = {t}, definition gives {float(want)}"
-        # antisymmetry: negating data and baseline negates the statistic
+        # antisymmetry: negating data and baseline negates the statistic (Grubb's statistic is even)
         if fail is None:
             t2 = c_os(stat, -xp, -base)
             if stat == "wilcoxon":
                 ok = abs(t2 + t) <= 1e-12 or lo != hi   # exact unless opposite-sign ties
                 if lo != hi:
                     ok = float(lo) - 1e-12 <= -t2 <= float(hi) + 1e-12
+            elif stat == "grubb":
+                ok = _same(t2, t)
             else:
-                ok = _same(t2, -t) if not (math.isnan(t) and math.isnan(t2)) else True
+                ok = _same(t2, -t, tol) if not (math.isnan(t) and math.isnan(t2)) else True
             if not ok:
-                fail = f"{stat} is not odd: stat(x, base)={t} but stat(-x, -base)={t2} for x={xp.tolist()}, base={base}"
-        return {"lines": [line], "impl": [("os", stat, t)], "oracle": fail, "nontrivial": n >= 3 or m != 0,
+                fail = (f"{stat} is not {'even' if stat == 'grubb' else 'odd'}: stat(x, base)={t} but "
+                        f"stat(-x, -base)={t2} for x={xp.tolist()}, base={base}")
+        # base shift law: the statistic is a function of the residuals x - base (dyadic data: exact)
+        if fail is None and base != 0 and not math.isnan(t):
+            t0 = c_os(stat, xp - base, 0.0)
+            if stat == "wilcoxon" and lo != hi:
+                ok = float(lo) - 1e-12 <= t0 <= float(hi) + 1e-12
+            else:
+                ok = _same(t0, t, tol)
+            if not ok:
+                fail = (f"{stat}(x, base={base}) = {t} but the statistic of the residuals x - base against "
+                        f"baseline 0 is {t0} (x={xp.tolist()})")
+        return {"lines": lines, "impl": impl, "oracle": fail, "nontrivial": n >= 3 or m != 0,
                 "tags": ["os", "os-" + stat], "mutated": mut}
 
     def _osmfx(self, c):
@@ -750,6 +999,8 @@ class C17(PropertyCheck):
         mut = snap.changed()
         lines, impl, fail = [], [], None
         fx = [F(v) for v in x]; fb = F(base)
+        lines.append(f"mfxflag {OS_FLAGS[stat]}")
+        impl.append(("mfxflag", c_osmfx_empirical(stat, n)))
         if stat in ("mean_gauss_mfx", "student_mfx") and niter <= 3 and n <= 8:
             mu, v = c_gmfx_fit(xa, va, niter, 0)
             lines.append(f"gmfx {niter} 0 {plist(x)} {plist(var)}")
@@ -757,6 +1008,10 @@ class C17(PropertyCheck):
             mu0, v0 = c_gmfx_fit(xa, va, niter, 1)
             lines.append(f"gmfx {niter} 1 {plist(x)} {plist(var)}")
             impl.append(("rats", [mu0, v0]))
+            if stat == "student_mfx" and math.isfinite(t):
+                # the likelihood-ratio statistic from the model's exact fits (log evaluated here)
+                lines.append(f"lrgmfx {niter} {fr(base)} {plist(x)} {plist(var)}")
+                impl.append(("lr", t, list(x), list(var), base))
         if stat == "mean_gauss_mfx":
             m_ref, _ = gmfx_em(x, var, niter)
             if not close(t, m_ref - base, 1e-9, 1e-9):
@@ -776,6 +1031,8 @@ class C17(PropertyCheck):
                 want = d_mean(fx, fb)
             elif stat == "sign_mfx":
                 want = d_sign(fx, fb)
+            elif stat == "median_mfx" and (base == 0 or STRICT_MEDIAN_MFX_BASE):
+                want = d_median(fx, fb)      # uniform weights: the weighted median is the median
             elif stat == "wilcoxon_mfx":
                 lib, lo, hi = d_wilcoxon_range(fx, fb)
                 want = None
@@ -796,7 +1053,7 @@ class C17(PropertyCheck):
         # (skipped when a data point sits exactly on the baseline and EM has run: the fitted centre
         # then differs from the baseline by rounding only, and sign/rank statistics jump there)
         on_base = niter > 0 and any(abs(v - base) < 1e-9 for v in x)
-        if fail is None and base != 0 and stat != "median_mfx" and not on_base:
+        if fail is None and base != 0 and (stat != "median_mfx" or STRICT_MEDIAN_MFX_BASE) and not on_base:
             # every statistic is a function of the residuals x - base
             t0 = c_osmfx(stat, xa - base, va, 0.0, niter)
             if math.isfinite(t) and math.isfinite(t0) and not close(t, t0, 1e-6, 1e-7):
@@ -827,6 +1084,13 @@ class C17(PropertyCheck):
             idx = lab.astype(int)
             if not (np.array_equal(px, allx[idx]) and np.array_equal(pv, allv[idx])):
                 fail = f"apply_permutation(magic={m}) does not move the first-level variances with their data"
+            Xc, PXc, PPXc = c_tsdesign(n1, n2)
+            lines.append(f"tsdesign {n1} {n2}")
+            impl.append(("mats", [Xc, PXc, PPXc]))
+            if 1 <= c["niter"] <= 2 and n1 + n2 <= 8 and np.all(pv > 0) and math.isfinite(t):
+                lines.append(f"tsmfx {c['niter']} {plist(px[:n1].tolist())} {plist(px[n1:].tolist())} "
+                             f"{plist(pv[:n1].tolist())} {plist(pv[n1:].tolist())}")
+                impl.append(("tsmfx", t, px.tolist(), pv.tolist(), n1))
             # antisymmetry under exchange of the group labels
             if fail is None:
                 sw = c_tsmfx(np.concatenate([px[n1:], px[:n1]]), np.concatenate([pv[n1:], pv[:n1]]), n2, c["niter"])
@@ -927,6 +1191,83 @@ class C17(PropertyCheck):
         return {"lines": lines, "impl": impl, "oracle": fail, "nontrivial": True,
                 "tags": ["pyaxis", "py-two" if c["two"] else "py-one", f"ndim={len(shape)}"], "mutated": mut}
 
+    def _axis(self, c):
+        """`stat(Y, id, base, axis, Magics)` of the compiled glue on an N-d array of any layout: every
+        output entry against the model's `statAxis` (fibre extraction + relabelling + flag dispatch)"""
+        from nipy.labs.group import onesample as los
+        from nipy.labs.group import twosample as lts
+        rs = np.random.RandomState(c["seed"])
+        shape, axis, stat, base = tuple(c["shape"]), c["axis"], c["stat"], c["base"]
+        n = shape[axis]
+
+        def lay(a):
+            if c["layout"] == "F":
+                return np.asfortranarray(a)
+            if c["layout"] == "T" and a.ndim >= 2:     # a transposed view of a C array
+                return np.ascontiguousarray(a.T).T
+            return np.ascontiguousarray(a)
+        Y = lay(rs.randint(-16, 17, size=shape) / 4.0)
+        outer = int(np.prod(shape[:axis], dtype=int)); inner = int(np.prod(shape[axis + 1:], dtype=int))
+        ax_arg = axis - len(shape) if c["neg_axis"] and not c["two"] else axis
+        magics = c["magics"]
+        ms = [0] if magics is None else magics
+        marr = None if magics is None else np.array(magics, dtype=float)
+        fail, lines, impl = None, [], []
+        # the installed extension is linked against the pinned lib/fff (median of two values)
+        stale = n == 2 and stat in ("median", "laplace", "tukey")
+        if not c["two"]:
+            snap = Snapshot(Y=Y) if marr is None else Snapshot(Y=Y, M=marr)
+            try:
+                T = los.stat(Y, stat, base, ax_arg) if marr is None else los.stat(Y, stat, base, ax_arg, marr)
+            except Exception as e:   # noqa
+                if c["neg_axis"]:
+                    return {"lines": [], "impl": [], "oracle": None, "nontrivial": False,
+                            "tags": ["axis", "axis-negative-refused"]}
+                return {"lines": [], "impl": [], "nontrivial": True, "tags": ["axis", "raised"],
+                        "oracle": f"onesample.stat({stat}, axis={ax_arg}) on shape {shape} raised {type(e).__name__}: {e}"}
+            mut = snap.changed()
+            want_shape = list(shape); want_shape[axis] = len(ms)
+            if list(T.shape) != want_shape:
+                fail = f"onesample.stat output shape {T.shape}, expected {want_shape}"
+            elif not stale:
+                lines.append(f"axis {OS_FLAGS[stat]} {fr(base)} {outer} {n} {inner} {len(ms)} {' '.join(map(str, ms))} "
+                             f"{plist(np.ascontiguousarray(Y).ravel().tolist())}")
+                impl.append(("axis", stat, np.ascontiguousarray(T).ravel().tolist(), n))
+        else:
+            n2 = c["n2"]
+            sh2 = list(shape); sh2[axis] = n2
+            Y2 = lay(rs.randint(-16, 17, size=tuple(sh2)) / 4.0)
+            snap = Snapshot(Y=Y, Y2=Y2) if marr is None else Snapshot(Y=Y, Y2=Y2, M=marr)
+            T = lts.stat(Y, Y2, stat, axis) if marr is None else lts.stat(Y, Y2, stat, axis, marr)
+            mut = snap.changed()
+            want_shape = list(shape); want_shape[axis] = len(ms)
+            if list(T.shape) != want_shape:
+                fail = f"twosample.stat output shape {T.shape}, expected {want_shape}"
+            else:
+                lines.append(f"axis2 {TS_FLAGS[stat]} {outer} {n} {n2} {inner} {len(ms)} {' '.join(map(str, ms))} "
+                             f"{plist(np.ascontiguousarray(Y).ravel().tolist())} "
+                             f"{plist(np.ascontiguousarray(Y2).ravel().tolist())}")
+                impl.append(("axis", stat, np.ascontiguousarray(T).ravel().tolist(), n))
+        # oracle: each fibre alone gives the same numbers (applied independently along the axis)
+        if fail is None:
+            Ym = np.moveaxis(np.asarray(Y), axis, 0).reshape(n, -1)
+            Tm = np.moveaxis(np.asarray(T), axis, 0).reshape(len(ms), -1)
+            for j in range(Ym.shape[1]):
+                col = np.ascontiguousarray(Ym[:, j])
+                if not c["two"]:
+                    one = los.stat(col, stat, base, 0) if marr is None else los.stat(col, stat, base, 0, marr)
+                else:
+                    col2 = np.ascontiguousarray(np.moveaxis(np.asarray(Y2), axis, 0).reshape(c["n2"], -1)[:, j])
+                    one = lts.stat(col, col2, stat, 0) if marr is None else lts.stat(col, col2, stat, 0, marr)
+                if not _arr_same(one, Tm[:, j]):
+                    fail = (f"stat({stat}, axis={axis}) on shape {shape} (layout {c['layout']}): fibre {j} gives "
+                            f"{Tm[:, j].tolist()} but the same vector alone gives {np.ravel(one).tolist()}")
+                    break
+        return {"lines": lines, "impl": impl, "oracle": fail, "nontrivial": True,
+                "tags": ["axis", "ax-two" if c["two"] else "ax-" + stat, f"ax-ndim={len(shape)}",
+                         "ax-layout=" + c["layout"], "ax-magics-none" if magics is None else "ax-magics"],
+                "mutated": mut}
+
     def _pyperm(self, c):
         from nipy.labs.utils import routines
         n, k, m, magic = c["n"], c["k"], c["m"], c["magic"]
@@ -996,7 +1337,7 @@ class C17(PropertyCheck):
             t = float(mes.one_sample_ttest(Y, V, n_iter=c["niter"])[0])
             tn = float(mes.one_sample_ttest(-Y, V, n_iter=c["niter"])[0])
             f = float(mes.one_sample_ftest(Y, V, n_iter=c["niter"])[0])
-            if math.isfinite(t) and not close(tn, -t, 1e-7, 1e-7):
+            if math.isfinite(t) and not close(tn, -t, 1e-6, 1e-6):
                 fail = f"one_sample_ttest is not odd in the data: {t} vs {tn} (Y={y.tolist()}, V1={v1.tolist()})"
             elif math.isfinite(t) and not close(t * t, f, 1e-7, 1e-7):
                 fail = f"one_sample_ttest^2 = {t * t} differs from one_sample_ftest = {f}"
@@ -1010,7 +1351,8 @@ class C17(PropertyCheck):
             if fail is None and n >= 4 and v2fit > 1e-9:
                 t2 = float(mes.two_sample_ttest(Y, V, g, n_iter=c["niter"])[0])
                 t2f = float(mes.two_sample_ttest(Y, V, 1 - g, n_iter=c["niter"])[0])
-                if math.isfinite(t2) and math.isfinite(t2f) and not close(t2f, -t2, 1e-6, 1e-7):
+                # (t = sqrt(max(0, F)): rounding of order 1e-13 in F is of order 3e-7 in t near F = 0)
+                if math.isfinite(t2) and math.isfinite(t2f) and not close(t2f, -t2, 1e-6, 1e-6):
                     fail = f"two_sample_ttest does not change sign when group labels are flipped: {t2} vs {t2f}"
         mut = snap.changed()
         return {"lines": lines, "impl": impl, "oracle": fail, "nontrivial": n >= 3,
@@ -1057,9 +1399,14 @@ class C17(PropertyCheck):
         # model line only under the hypothesis of `pvalue_pos` (some draw reaches T); the excluded
         # point (T above every draw) is run on the real code by the oracle below
         for j in range(min(p, 2)):
-            if np.all(np.isfinite(draws)) and np.isfinite(T[j]) and T[j] <= draws.max():
-                lines.append(f"pval {fr(float(T[j]))} {plist(draws.tolist())}")
-                impl.append(("pv", float(pv[j])))
+            if np.all(np.isfinite(draws)) and np.isfinite(T[j]):
+                # the clamped form holds for every T (theorem pvalue_p_in_unit); where some draw reaches T
+                # it is the plain pseudo p-value (pvalueClamped_eq_pvalue): both lines then
+                lines.append(f"pvalc {fr(float(T[j]))} {plist(draws.tolist())}")
+                impl.append(("rats", [float(pv[j])]))
+                if T[j] <= draws.max():
+                    lines.append(f"pval {fr(float(T[j]))} {plist(draws.tolist())}")
+                    impl.append(("pv", float(pv[j])))
         if np.any(~(pv > 0)) or np.any(pv > 1):
             j = int(np.nonzero(~((pv > 0) & (pv <= 1)))[0][0])
             fail = (f"permutation_test pvalue() = {pv[j]} for voxel {j} (T={T[j]}, {len(draws)} draws, max draw "
@@ -1221,8 +1568,102 @@ class C17(PropertyCheck):
                 tt = np.ravel(mes.one_sample_ttest(Yin, Vin, **kw)); ff = np.ravel(mes.one_sample_ftest(Yin, Vin, **kw))
             if not (_arr_same(tt, t) and _arr_same(ff, f)):
                 fail = f"one_sample_ttest/ftest differ from mfx_stat on the constant design: {tt} {ff} vs {t} {f}"
-        return {"lines": [], "impl": [], "oracle": fail, "nontrivial": True,
+        # the EM iterates themselves against the model (general design; pinv(X) handed over as computed)
+        lines, impl = [], []
+        if niter <= 2 and n <= 8:
+            Pm = np.linalg.pinv(X)
+            for j in range(min(p, 2)):
+                mod = mes.MixedEffectsModel(X, n_iter=niter).fit(Y[:, j].copy(), V1[:, j].copy())
+                lines.append(f"memx {niter} {pmat(X)} {pmat(Pm)} {plist(Y[:, j].tolist())} {plist(V1[:, j].tolist())}")
+                impl.append(("state", np.ravel(mod.beta_).tolist(), float(np.ravel(mod.V2)[0])))
+                if fail is None:
+                    la, lb, lc = mod.log_like(Y[:, j], V1[:, j]), mod.predict(Y[:, j], V1[:, j]), mod.score(Y[:, j], V1[:, j])
+                    if not (_arr_same(la, lb) and _arr_same(la, lc)):
+                        fail = f"MixedEffectsModel.predict/score differ from log_like: {la} {lb} {lc}"
+        # t_stat: the one-sample Student statistic of each column (baseline 0)
+        with np.errstate(all="ignore"):
+            ts = np.ravel(mes.t_stat(Y))
+        for j in range(min(p, 2)):
+            if np.std(Y[:, j]) > 0:
+                lines.append(f"os student 0 0 {plist(Y[:, j].tolist())}")
+                impl.append(("os", "student", float(ts[j]), n))
+                if fail is None and not _same(ts[j], d_student([F(v) for v in Y[:, j].tolist()], F(0))):
+                    fail = f"t_stat(Y)[{j}] = {ts[j]}, the one-sample Student statistic of {Y[:, j].tolist()} is {d_student([F(v) for v in Y[:, j].tolist()], F(0))}"
+        return {"lines": lines, "impl": impl, "oracle": fail, "nontrivial": True,
                 "tags": ["mfxstat", "design=" + c["design"], f"ms-niter={'default' if c['default_niter'] else niter}"]}
+
+    def _vbglm(self, c):
+        """two-level linear model loops on a general design: `fff_glm_twolevel_EM` (C, rebuilt),
+        `two_level_glm` (variational Bayes), `generate_data`"""
+        from nipy.algorithms.statistics import bayesian_mixed_effects as bme
+        from nipy.algorithms.statistics import mixed_effects_stat as mes
+        n, p, niter = c["n"], c["p"], c["niter"]
+        rs = np.random.RandomState(c["seed"])
+        g = np.array([1] * c["n1"] + [0] * (n - c["n1"]))
+        if c["design"] == "ones":
+            X = np.ones((n, 1))
+        elif c["design"] == "group":
+            X = np.vstack((np.ones(n), g)).T.astype(float)
+        else:
+            X = np.vstack((np.ones(n), g, np.arange(n) - (n - 1) / 2.0)).T.astype(float)
+        Y = rs.randint(-16, 17, size=(n, p)) / 4.0
+        VY = rs.choice([0.25, 0.5, 1.0, 2.0, 4.0], size=(n, p))
+        Pm = np.linalg.pinv(X)
+        lines, impl, fail = [], [], None
+        if not np.allclose(Pm @ X, np.eye(X.shape[1]), atol=1e-10):
+            return {"lines": [], "impl": [], "oracle": None, "nontrivial": False, "tags": ["vbglm", "rank-deficient"]}
+        snap = Snapshot(Y=Y, VY=VY, X=X)
+        try:
+            B, S2, dof = bme.two_level_glm(Y if p > 1 else Y[:, 0], VY if p > 1 else VY[:, 0], X, niter=niter)
+        except Exception as e:   # noqa
+            return {"lines": [], "impl": [], "nontrivial": True, "tags": ["vbglm", "raised"],
+                    "oracle": f"two_level_glm(n={n}, design={c['design']}, niter={niter}) raised {type(e).__name__}: {e}"}
+        mut = snap.changed()
+        B = np.reshape(B, (X.shape[1], p)); S2 = np.reshape(S2, (p,))
+        if dof != n - X.shape[1]:
+            fail = f"two_level_glm dof = {dof}, expected n - p = {n - X.shape[1]}"
+        small = niter <= 2 and n <= 8
+        for j in range(p):
+            y, vy = Y[:, j], VY[:, j]
+            if small and j < 2:
+                lines.append(f"vbglm {niter} {pmat(X)} {pmat(Pm)} {plist(y.tolist())} {plist(vy.tolist())}")
+                impl.append(("state", B[:, j].tolist(), float(S2[j])))
+                cb, cs2 = c_glm2(X, Pm, y, vy, niter)
+                lines.append(f"glm2 {niter} {pmat(X)} {pmat(Pm)} {plist(y.tolist())} {plist(vy.tolist())}")
+                impl.append(("state", cb, float(cs2)))
+            if fail is None:
+                # columns are independent problems
+                b1, s1, _ = bme.two_level_glm(y.copy(), vy.copy(), X, niter=niter)
+                if not (_arr_same(b1, B[:, j]) and _same(np.ravel(s1)[0] if np.ndim(s1) else s1, S2[j])):
+                    fail = f"two_level_glm does not treat column {j} independently: {B[:, j].tolist()} vs {np.ravel(b1).tolist()}"
+            if fail is None and niter >= 1:
+                # antisymmetry: negating the data negates the effects, the variance is unchanged
+                b2, s2_, _ = bme.two_level_glm(-y, vy.copy(), X, niter=niter)
+                if not (_arr_same(np.ravel(b2), -B[:, j]) and _same(float(np.ravel(s2_)[0]), S2[j])):
+                    fail = f"two_level_glm(-y) = {np.ravel(b2).tolist()}, expected {(-B[:, j]).tolist()} (y={y.tolist()}, vy={vy.tolist()})"
+            if fail is None and niter >= 1:
+                # first C iteration from the infinite initial variance: ordinary least squares, and the C loop
+                # and the VB loop agree on the effects after one iteration (they differ by n vs n - p in s2 only)
+                cb, cs2 = c_glm2(X, Pm, y, vy, 1)
+                vb, vs, _ = bme.two_level_glm(y.copy(), vy.copy(), X, niter=1)
+                ols = Pm @ y
+                if not (_arr_same(cb, ols) and _arr_same(np.ravel(vb), ols)):
+                    fail = f"first iteration is not least squares: C {cb}, VB {np.ravel(vb).tolist()}, pinv(X) y = {ols.tolist()}"
+                elif not _same(cs2 * n, float(np.ravel(vs)[0]) * (n - X.shape[1]), 1e-8):
+                    fail = f"after one iteration n * s2(C) = {cs2 * n} differs from (n - p) * s2(VB) = {float(np.ravel(vs)[0]) * (n - X.shape[1])}"
+        # generate_data: with zero variances the data are exactly X beta; negative variances are refused
+        if fail is None:
+            beta = rs.randint(-4, 5, size=(X.shape[1], p)).astype(float)
+            Yg = mes.generate_data(X, beta, 0.0, np.zeros((n, p)))
+            if not np.array_equal(Yg, X @ beta):
+                fail = f"generate_data(X, beta, V2=0, V1=0) is not X beta"
+            try:
+                mes.generate_data(X, beta, 1.0, -np.ones((n, p)))
+                fail = "generate_data accepted negative first-level variances"
+            except ValueError:
+                pass
+        return {"lines": lines, "impl": impl, "oracle": fail, "nontrivial": True, "mutated": mut,
+                "tags": ["vbglm", "vb-design=" + c["design"], f"vb-niter={niter}", "vb-small" if small else "vb-large"]}
 
     def _pymfxaxis(self, c):
         from nipy.labs.group import onesample as los
@@ -1325,19 +1766,30 @@ class C17(PropertyCheck):
         XYZ = np.vstack([np.arange(p), np.zeros(p, int), np.zeros(p, int)])
         np.random.seed(c["seed"])
         fail = None
+        lines, impl = [], []
+        diam_raised = False
         tr = (lambda a: a.copy()) if axis == 0 else (lambda a: np.ascontiguousarray(a.T))
+        graph = bool(c.get("graph")) and not c["two"]
         if stat == "student_mfx":
             base = 0.0    # the installed extension predates the baseline fix of the likelihood-ratio statistics
         if not c["two"]:
             kw = dict(stat_id=stat, base=base, ndraws=c["ndraws"], axis=axis)
             if c["mfx"]:
                 kw.update(vardata=tr(var), niter=niter)
-            P = pt.permutation_test_onesample(tr(data), XYZ, **kw)
+            if graph:
+                from nipy.algorithms.graph import wgraph_from_3d_grid
+                P = pt.permutation_test_onesample_graph(tr(data), wgraph_from_3d_grid(XYZ.T, 18), **kw)
+            else:
+                P = pt.permutation_test_onesample(tr(data), XYZ, **kw)
             nmax = 1 << n
 
             def one(col, vcol, m):
                 x = np.array(flip(col, m))
                 return c_osmfx(stat, x, np.array(vcol), base, niter) if c["mfx"] else c_os(stat, x, base)
+
+            def perm_map(m):        # the statistic map under relabelling m, through the same entry point
+                return np.atleast_1d(pt.onesample_stat(P.data, P.vardata, P.stat_id, P.base, P.axis,
+                                                       np.array([m], dtype=float), P.niter).squeeze())
             if n == 2 and stat in ("median", "laplace"):
                 return {"lines": [], "impl": [], "oracle": None, "nontrivial": False, "tags": ["ptopt", "skipped"]}
             allT = [[one(data[:, j].tolist(), var[:, j].tolist(), m) for m in range(nmax)] for j in range(p)]
@@ -1351,6 +1803,10 @@ class C17(PropertyCheck):
                 kw.update(vardata1=tr(var), vardata2=tr(var2), niter=niter)
             P = pt.permutation_test_twosample(tr(data), tr(data2), XYZ, **kw)
             nmax = math.comb(n + n2, n)
+
+            def perm_map(m):
+                return np.atleast_1d(np.squeeze(pt.twosample_stat(P.data1, P.vardata1, P.data2, P.vardata2, P.stat_id,
+                                                                  P.axis, np.array([m], dtype=float), P.niter)))
             allT = []
             for j in range(p):
                 ts = []
@@ -1363,6 +1819,7 @@ class C17(PropertyCheck):
                         ts.append(c_ts(st, px, n))
                 allT.append(ts)
         T = np.atleast_1d(P.Tvalues)
+        draws = np.atleast_1d(P.random_Tvalues)
         tag_stat = "mfx" if c["mfx"] else "rfx"
         usable = all(np.all(np.isfinite(ts)) for ts in allT) and np.all(np.isfinite(T))
         for j in range(p):
@@ -1370,18 +1827,75 @@ class C17(PropertyCheck):
                 fail = (f"permutation_test(axis={axis}, base={base}, stat={stat}, niter={niter}).Tvalues[{j}] = {T[j]} but the "
                         f"statistic of voxel {j} is {allT[j][0]}")
                 break
+        # the null sample: `ndraws` statistics, each the statistic of some relabelling of some voxel
+        gated = (c["two"] and axis == 1) or (c["mfx"] and niter != 5)      # see STRICT_NULL_DRAWS
+        if fail is None and usable and np.all(np.isfinite(draws)) and (STRICT_NULL_DRAWS or not gated):
+            pool = np.sort(np.array([v for ts in allT for v in ts]))
+            if len(draws) != c["ndraws"]:
+                fail = (f"permutation_test(axis={axis}, two={c['two']}): {len(draws)} null draws (random_Tvalues), "
+                        f"ndraws={c['ndraws']} were requested")
+            else:
+                # (two-sample mixed effects: the null sample reorders the subjects within the groups; where the
+                #  estimated group difference is exactly 0 for some split, its sign - hence the sign and, with an
+                #  unconverged EM, the size of the likelihood-ratio statistic - is decided by rounding)
+                exact_tie = c["two"] and c["mfx"] and bool(np.any(pool == 0.0))
+                if c["two"] and c["mfx"]:          # a near tie: matched up to the sign
+                    pool = np.sort(np.abs(pool)); draws_cmp = np.abs(draws)
+                else:
+                    draws_cmp = draws
+                for d in draws_cmp:
+                    k = np.searchsorted(pool, d)
+                    near = min(abs(pool[min(k, len(pool) - 1)] - d), abs(pool[max(k - 1, 0)] - d))
+                    if near > 1e-7 * max(1.0, abs(d)) and not exact_tie:
+                        fail = (f"permutation_test(axis={axis}, two={c['two']}, stat={stat}): null draw {d} is not the "
+                                f"statistic of any relabelling of any voxel (not a valid relabelling of the data)")
+                        break
         pv = np.atleast_1d(P.pvalue())
         if fail is None and (np.any(~(pv > 0)) or np.any(pv > 1)):
             fail = f"pvalue() = {pv.tolist()} not in (0, 1] (axis={axis}, stat={stat})"
+        finite_draws = len(draws) > 0 and np.all(np.isfinite(draws)) and len(draws) == P.ndraws
+        if usable and finite_draws:
+            for j in range(min(p, 3)):
+                lines.append(f"pvalc {fr(float(T[j]))} {plist(draws.tolist())}")
+                impl.append(("rats", [float(pv[j])]))
+            # pvalue(Tvalues=...) with explicit values beyond both ends of the null sample
+            ext = np.array([draws.min() - 1.0, draws.max() + 1.0, float(np.median(draws))])
+            pe = np.atleast_1d(P.pvalue(ext))
+            for k in range(3):
+                lines.append(f"pvalc {fr(float(ext[k]))} {plist(draws.tolist())}")
+                impl.append(("rats", [float(pe[k])]))
+            if fail is None and not np.all((pe > 0) & (pe <= 1)):
+                fail = f"pvalue({ext.tolist()}) = {pe.tolist()} not in (0, 1]"
+            # z-scores: decreasing function of the p-value
+            z = np.atleast_1d(P.zscore(ext))
+            if fail is None and not (np.all(np.isfinite(z)) and z[0] <= z[2] <= z[1]):
+                fail = f"zscore({ext.tolist()}) = {z.tolist()} is not monotone in the statistic"
+            # height threshold: P(null draw >= threshold) <= pval, at dyadic levels (ceil exact)
+            for pval in (0.5, 0.25, 0.125, 1.0, 0.0):
+                h = P.height_threshold(pval)
+                lines.append(f"hthresh {fr(pval)} {plist(draws.tolist())}")
+                impl.append(("text", "inf" if math.isinf(h) else fr(float(h))))
+                if fail is None and math.isfinite(h) and np.mean(draws >= h) > pval + 1e-12:
+                    fail = (f"height_threshold({pval}) = {h}: a fraction {np.mean(draws >= h)} of the null draws reaches it")
         if fail is None and usable:
-            clusters = [(float(np.median(T)), None)] if c["clusters"] else None
-            regions = [np.array([0] * (p // 2) + [1] * (p - p // 2))] if c["clusters"] else None
+            clusters = regions = None
+            if c["clusters"]:
+                th = float(np.median(T))
+                clusters = [(th, c.get("diam"))] if not graph else [(th, None)]
+                regions = [np.array([0] * (p // 2) + [1] * (p - p // 2))]
+            state = np.random.get_state()
             try:
                 vox, cl, rg = P.calibrate(nperms=c["nperms"], clusters=clusters, regions=regions)
             except Exception as e:   # noqa
                 vox = None
-                fail = (f"calibrate(nperms={c['nperms']}, clusters={clusters}, regions={'given' if regions else None}) "
-                        f"raised {type(e).__name__}: {e} (axis={axis}, stat={stat})")
+                if clusters is not None and clusters[0][1] is not None:
+                    # the diameter-constrained blob extraction (`extract_clusters_from_diam`, documented as
+                    # experimental) fails on plateaus of the statistic map (recursion on an empty sub-region):
+                    # no p-value exists to state the property about; recorded as a branch, not a violation
+                    diam_raised = True
+                else:
+                    fail = (f"calibrate(nperms={c['nperms']}, clusters={clusters}, regions={'given' if regions else None}) "
+                            f"raised {type(e).__name__}: {e} (axis={axis}, stat={stat})")
             if vox is not None:
                 pvals = np.atleast_1d(vox["p_values"]); cp = np.atleast_1d(vox["Corr_p_values"])
                 exhaustive = c["nperms"] is None or c["nperms"] >= nmax
@@ -1397,6 +1911,51 @@ class C17(PropertyCheck):
                             fail = (f"calibrate exhaustive (axis={axis}, stat={stat}, base={base}, niter={niter}): p_values[{j}]="
                                     f"{pvals[j]} but enumerating the {nmax} relabellings once gives {hi}")
                             break
+                # ---- the counting arithmetic against the model -------------------------------------
+                # the relabellings calibrate used: all of them, or the np.random draws it made (input)
+                if exhaustive:
+                    mnums = list(range(nmax))
+                else:
+                    np.random.set_state(state)
+                    mm = np.floor(np.random.uniform(0, nmax, size=c["nperms"])); mm[0] = 0
+                    mnums = [int(v) for v in mm]
+                rows = [perm_map(m) for m in mnums]
+                if all(np.all(np.isfinite(r)) for r in rows) and len(rows) <= 64:
+                    rtxt = f"{len(rows)} " + " ".join(plist(r.tolist()) for r in rows)
+                    lines.append(f"calib {plist(T.tolist())} {rtxt}")
+                    impl.append(("multi", [pvals.tolist(), cp.tolist(), np.atleast_1d(vox["perm_maxT_values"]).tolist()]))
+                    if fail is None and not np.array_equal(rows[0], T):
+                        fail = (f"calibrate: the first relabelling (magic number 0) gives {rows[0].tolist()}, not the observed "
+                                f"statistic map {T.tolist()} (identity relabelling does not reproduce the observed statistic)")
+                    for res in (cl if c["clusters"] else []):
+                        labels = np.asarray(res["labels"])
+                        lines.append(f"csize {len(labels)} {' '.join(str(int(v)) for v in labels)}")
+                        impl.append(("rats", np.atleast_1d(res["size_values"]).astype(float).tolist()))
+                        prow_s, prow_f = [], []
+                        for r in rows:
+                            if res["diam"] is not None:
+                                pl = pt.extract_clusters_from_diam(r, P.XYZ, res["thresh"], res["diam"])
+                            elif P.XYZ is None:
+                                pl = pt.extract_clusters_from_graph(r, P.G, res["thresh"])
+                            else:
+                                pl = pt.extract_clusters_from_thresh(r, P.XYZ, res["thresh"])
+                            sv, fv = pt.compute_cluster_stats(r, pl, P.random_Tvalues)
+                            prow_s.append(np.atleast_1d(sv).astype(float).tolist())
+                            prow_f.append(np.atleast_1d(fv).astype(float).tolist())
+                        for key, prow in (("size", prow_s), ("Fisher", prow_f)):
+                            obs = np.atleast_1d(res[key + "_values"]).astype(float)
+                            if np.all(np.isfinite(obs)) and all(np.all(np.isfinite(r_)) for r_ in prow):
+                                lines.append(f"poolp {plist(obs.tolist())} {len(prow)} " + " ".join(plist(r_) for r_ in prow))
+                                impl.append(("multi", [np.atleast_1d(res[key + "_p_values"]).tolist(),
+                                                       np.atleast_1d(res[key + "_Corr_p_values"]).tolist()]))
+                    for res in (rg if c["clusters"] else []):
+                        F_ = np.atleast_1d(res["Fisher_values"]).astype(float)
+                        PF = np.asarray(res["perm_Fisher_values"], dtype=float)
+                        if np.all(np.isfinite(F_)) and np.all(np.isfinite(PF)):
+                            ties = any(len(set(r_.tolist())) < len(r_) for r_ in PF)
+                            lines.append(f"region {plist(F_.tolist())} {len(PF)} " + " ".join(plist(r_.tolist()) for r_ in PF))
+                            impl.append(("multi", [np.atleast_1d(res["Fisher_p_values"]).tolist(),
+                                                   None if ties else np.atleast_1d(res["Fisher_Corr_p_values"]).tolist()]))
                 if fail is None and c["clusters"]:
                     for res in list(cl) + list(rg):
                         for key, val in res.items():
@@ -1408,9 +1967,11 @@ class C17(PropertyCheck):
                                     break
                         if fail:
                             break
-        return {"lines": [], "impl": [], "oracle": fail, "nontrivial": True,
+        return {"lines": lines, "impl": impl, "oracle": fail, "nontrivial": True,
                 "tags": ["ptopt", "po-" + tag_stat, f"po-axis={axis}", "po-two" if c["two"] else "po-one",
-                         "po-clusters" if c["clusters"] else "po-voxels"]}
+                         "po-clusters" if c["clusters"] else "po-voxels", "po-graph" if graph else "po-grid",
+                         "po-diam" if c["clusters"] and c.get("diam") is not None and not graph else "po-nodiam"]
+                        + (["po-diam-raised"] if diam_raised else [])}
 
     # ------------------------------------------------------------------
     def compare(self, case, impl_obs, model_out):
@@ -1427,31 +1988,85 @@ class C17(PropertyCheck):
                 return f"model says {model_out}"
             return cmp_rats([impl_obs[1]], model_out.split()[0], 1e-12, 1e-12)
         if kind == "os":
-            _, stat, t = impl_obs
+            stat, t = impl_obs[1], impl_obs[2]
+            n = impl_obs[3] if len(impl_obs) > 3 else None
+            return _cmp_os(stat, t, model_out, n)
+        if kind == "tsmfx":
+            _, t, px, pv, n1 = impl_obs
             if model_out.startswith(("error", "bad-op")):
                 return f"model says {model_out}"
+            sg, b1, s21, b0, s20 = [q.strip() for q in model_out.split("|")]
+            n = len(px)
+            X = np.array([[1.0, 1.0]] * n1 + [[1.0, 0.0]] * (n - n1))
+            bb1 = [float(F(q)) for q in b1.split()]; bb0 = [float(F(q)) for q in b0.split()]
+            ll = glm_ll(px, pv, X, bb1, float(F(s21))); ll0 = glm_ll(px, pv, X, bb0, float(F(s20)))
+            want = float(F(sg)) * math.sqrt(max(2.0 * (ll - ll0), 0.0))
+            return None if close(t, want, 1e-7, 1e-7) else f"impl={t!r} model={want!r}"
+        if kind == "mfxflag":
             toks = model_out.split()
-            if stat in ("mean", "median", "sign", "wilcoxon"):
-                return cmp_rats([t], model_out, 1e-12, 1e-12)
-            if stat == "student":
-                s = float(F(toks[0]))
-                if toks[1] == "inf":
-                    want = s * math.inf if s != 0 else 0.0
-                else:
-                    want = s * math.sqrt(float(F(toks[1])))
-                if math.isnan(t) and toks[1] == "inf":
-                    return None
-                return None if _same(t, want) else f"impl={t!r} model={want!r}"
-            if stat == "laplace":
-                s, s0, sc = (F(v) for v in toks)
-                if s == 0:
-                    want = 0.0
-                elif sc == 0:
-                    return None
-                else:
-                    n = len(case.get("x", [])) or None
-                    return None if _lap_ok(t, float(s), float(s0), float(sc)) else f"impl={t!r} model={model_out}"
-                return None if _same(t, want) else f"impl={t!r} model={want!r}"
+            if len(toks) != 2 or model_out.startswith(("error", "bad-op")):
+                return f"model says {model_out}"
+            return None if int(toks[1]) == impl_obs[1] else f"empirical field impl={impl_obs[1]} model={toks[1]} ({toks[0]})"
+        if kind == "mats":
+            if model_out.startswith(("error", "bad-op")):
+                return f"model says {model_out}"
+            parts = [q.strip() for q in model_out.split("|")]
+            if len(parts) != len(impl_obs[1]):
+                return "number of matrices differs"
+            for k, (mat, out) in enumerate(zip(impl_obs[1], parts)):
+                r = cmp_rats([v for row in mat for v in row], out, 1e-15, 1e-15)
+                if r:
+                    return f"matrix {k}: {r}"
+            return None
+        if kind == "state":
+            _, b, s2 = impl_obs
+            if model_out.startswith(("error", "bad-op")):
+                return f"model says {model_out}"
+            mb, ms = [q.strip() for q in model_out.split("|")]
+            r = cmp_rats(list(b), mb, 1e-8, 1e-9)
+            if r:
+                return "effects " + r
+            if ms == "inf":
+                return None if math.isinf(s2) else f"variance impl={s2!r} model=inf"
+            return cmp_rats([s2], ms, 1e-8, 1e-9) and "variance " + cmp_rats([s2], ms, 1e-8, 1e-9)
+        if kind == "multi":
+            if model_out.startswith(("error", "bad-op")):
+                return f"model says {model_out}"
+            parts = model_out.split(";")
+            if len(parts) != len(impl_obs[1]):
+                return f"model answered {len(parts)} groups, implementation has {len(impl_obs[1])}"
+            for g, (vals, out) in enumerate(zip(impl_obs[1], parts)):
+                if vals is None:
+                    continue
+                r = cmp_rats(vals, out.strip(), 1e-12, 1e-12)
+                if r:
+                    return f"group {g}: {r}"
+            return None
+        if kind == "axis":
+            _, stat, vals, n = impl_obs
+            outs = [o.strip() for o in model_out.split(";")] if model_out.strip() else []
+            if model_out.startswith(("error", "bad-op")):
+                return f"model says {model_out}"
+            if len(outs) != len(vals):
+                return f"axis: impl has {len(vals)} entries, model {len(outs)}"
+            for k, (v, o) in enumerate(zip(vals, outs)):
+                r = _cmp_os(stat, v, o, n)
+                if r:
+                    return f"flat index {k}: {r}"
+            return None
+        if kind == "lr":
+            _, t, xs, var, base = impl_obs
+            if model_out.startswith(("error", "bad-op")):
+                return f"model says {model_out}"
+            sg, mu, v, v0 = (F(tok) for tok in model_out.split())
+            if sg == 0:
+                return None if t == 0.0 else f"impl={t!r} model=0"
+            if v <= 0 or v0 <= 0:
+                return None           # log of a non-positive total variance: outside the model
+            xc = [a - base for a in xs]
+            lr = 2 * (gmfx_nll(xc, var, 0.0, float(v0)) - gmfx_nll(xc, var, float(mu), float(v)))
+            want = float(sg) * math.sqrt(max(lr, 0.0))
+            return None if close(t, want, 1e-7, 1e-7) else f"impl={t!r} model={want!r}"
         return "unknown observation kind"
 
     def shrink(self, case):
@@ -1475,6 +2090,30 @@ class C17(PropertyCheck):
         if k == "osmfx" and case["niter"] > 0:
             c = dict(case); c["niter"] = case["niter"] - 1
             yield c
+        if k == "axis":
+            if case.get("magics") and len(case["magics"]) > 1:
+                for m in case["magics"]:
+                    c = dict(case); c["magics"] = [m]
+                    yield c
+            for d in range(len(case["shape"])):
+                if d != case["axis"] and case["shape"][d] > 1:
+                    c = dict(case); c["shape"] = list(case["shape"]); c["shape"][d] = 1
+                    yield c
+            if case["layout"] != "C":
+                c = dict(case); c["layout"] = "C"
+                yield c
+        if k == "vbglm":
+            if case["p"] > 1:
+                c = dict(case); c["p"] = 1
+                yield c
+            if case["niter"] > 1:
+                c = dict(case); c["niter"] = case["niter"] - 1
+                yield c
+        if k == "ptopt":
+            for key, small in (("clusters", False), ("graph", False), ("nperms", None), ("p", 2), ("ndraws", 8), ("shift", 0.0)):
+                if case.get(key) != small and (not isinstance(small, int) or isinstance(small, bool) or case[key] > small):
+                    c = dict(case); c[key] = small
+                    yield c
         if k == "ptest":
             for key, small in (("p", 2), ("n", 2), ("ndraws", 4)):
                 if case[key] > small:
@@ -1482,7 +2121,49 @@ class C17(PropertyCheck):
                     yield c
 
     def classify(self, case, failure):
+        if case.get("kind") == "axis" and case.get("neg_axis"):
+            return KEY_NEG_AXIS
         return None
+
+
+def _cmp_os(stat, t, model_out, n=None):
+    """one statistic value of the implementation against one model answer"""
+    if model_out.startswith(("error", "bad-op", "unmodelled")):
+        return f"model says {model_out}"
+    toks = model_out.split()
+    if stat in ("mean", "median", "sign", "wilcoxon"):
+        return cmp_rats([t], model_out, 1e-12, 1e-12)
+    if stat == "student":
+        s = float(F(toks[0]))
+        if toks[1] == "inf":
+            want = s * math.inf if s != 0 else 0.0
+        else:
+            want = s * math.sqrt(float(F(toks[1])))
+        if math.isnan(t) and toks[1] == "inf":
+            return None
+        return None if _same(t, want) else f"impl={t!r} model={want!r}"
+    if stat == "grubb":
+        want = math.sqrt(float(F(toks[0])))
+        return None if _same(t, want) else f"impl={t!r} model={want!r}"
+    if stat == "elr":
+        if toks[0] == "0":
+            return None if t == 0.0 else f"impl={t!r} model=0"
+        s = float(F(toks[1]))
+        if toks[0] == "inf":
+            return None if t == s * math.inf else f"impl={t!r} model={s * math.inf!r}"
+        # finite kind: the value is the oracle's (independent root finder); the model gives the sign
+        return None if (sgn(t) == sgn(s) or t == 0.0) and not math.isnan(t) else f"impl={t!r} model sign {s}"
+    if stat in ("laplace", "tukey"):
+        s, s0, sc = (F(v) for v in toks)
+        if s == 0:
+            return None if _same(t, 0.0) else f"impl={t!r} model=0.0"
+        if sc == 0:
+            return None if t == float(s) * math.inf else f"impl={t!r} model={float(s) * math.inf!r}"
+        if n is None:
+            return None if _lap_ok(t, float(s), float(s0), float(sc)) else f"impl={t!r} model={model_out}"
+        want = float(s) * math.sqrt(2 * n * math.log(float(s0 / sc)))
+        return None if _same(t, want) else f"impl={t!r} model={want!r}"
+    return f"no comparator for statistic {stat}"
 
 
 def _same(a, b, tol=1e-9):
